@@ -517,6 +517,10 @@ func (d *DefaultServerDispatcher) messagePump() {
 
 	// Dispatcher Loop
 	for {
+		// The decision to dispatch belongs to the event handled in this iteration: a ready flag and a queue left over
+		// from an earlier event (of another client) must not be acted upon, e.g. after a timeout event.
+		rdy = false
+		clientQueue = nil
 		select {
 		case <-d.stoppedC:
 			// server was stopped
